@@ -32,7 +32,7 @@ META = dict(
     cfg_budget_s=dict(quick=200, thorough=900),
 )
 
-LABEL_PATTERNS = [("x", "x"), ("x", "y"), (None, None), (None, "x")]
+LABEL_PATTERNS = [("x", "x"), ("x", "y"), (None, None), (None, "x"), ("", None), ("", "x"), ("", "")]
 
 
 def configs(tier):
